@@ -827,7 +827,7 @@ func TransportRun(segs [][]byte, end int, timeoutSec int) (sx.T, float64) {
 	}()
 	// the reader reports the permanent failure again and again until the connection's error queue (10) is full;
 	// a reader that gives up (returns) is detected through [done]
-	deadline := time.Now().Add(time.Duration(timeoutSec+3) * time.Second)
+	deadline := time.Now().Add(time.Duration(timeoutSec+20) * time.Second)
 	readerGone := false
 wait:
 	for conn.VerifErrChLen() < 10 && time.Now().Before(deadline) {
@@ -845,9 +845,13 @@ wait:
 	for ch.VerifNextErr() != nil {
 		cerrs++
 	}
+	// the consumer waits for its packages (wait = true, as the drivers do): every package parsed from completely
+	// received packets must come before the error, although the error has been queued for a long time by now
 	dl := sx.L{}
 	for {
-		pkg, err := ch.NextPackage(context.Background(), false)
+		ctx, cancel := context.WithTimeout(context.Background(), 250*time.Millisecond)
+		pkg, err := ch.NextPackage(ctx, true)
+		cancel()
 		if err != nil {
 			break
 		}
@@ -857,7 +861,7 @@ wait:
 	// each with a short context of its own (they return at once when an error is queued)
 	told := 0
 	for i := 0; i < 3; i++ {
-		ctx, cancel := context.WithTimeout(context.Background(), 25*time.Millisecond)
+		ctx, cancel := context.WithTimeout(context.Background(), 250*time.Millisecond)
 		_, err := ch.NextPackage(ctx, true)
 		cancel()
 		if err != nil && !errors.Is(err, context.DeadlineExceeded) {
@@ -865,12 +869,12 @@ wait:
 		}
 	}
 	// failed: 1 = the failure is reported to every caller in time; 0 = never; 2 = only to some callers;
-	// 3 = later than the read timeout allows (+2.5 s of scheduling slack); 4 = the reader goroutine panicked
+	// 3 = later than the read timeout allows (+5 s of scheduling slack); 4 = the reader goroutine panicked
 	failed := 0
 	switch {
 	case panicked:
 		failed = 4
-	case told == 3 && elapsed > float64(timeoutSec)+2.5:
+	case told == 3 && elapsed > float64(timeoutSec)+5:
 		failed = 3
 	case told == 3:
 		failed = 1
